@@ -4,6 +4,7 @@ package corerad
 // Also home of the content rule shared with C03/C04/C07/C08/C13-C16.
 
 import (
+	"sort"
 	"fmt"
 	"strings"
 	"time"
@@ -21,6 +22,12 @@ func modelFor(info *runInfo, h *history, w *write) (*modelIn, string) {
 		// The RA was generated without asking the system for the forwarding
 		// state (a cached value?): judge it by what the system would have said.
 		w.build = &build{g: w.g, node: w.node, ifn: w.ifn, seq: w.seq, t1: w.t, t2: w.t, fwd: worldFwdAt(info, w.node, w.ifn, w.seq)}
+		// ... and, likewise, by the address table the system held then (as many
+		// listings of it as any configuration can ask for)
+		tab := worldAddrsAt(info, w.node, w.ifn, w.seq)
+		for i := 0; i < 16; i++ {
+			w.build.addr = append(w.build.addr, tab)
+		}
 	}
 	if w.build.fwdErr != "" {
 		// The forwarding read of this build failed and an RA went out anyway:
@@ -38,6 +45,65 @@ func modelFor(info *runInfo, h *history, w *write) (*modelIn, string) {
 	}
 	if g != nil {
 		in.mac = g.mac
+	}
+	if b := w.build; b.helpers {
+		// Plugins applied side by side: the order in which their listings
+		// reached the kernel says nothing about which stanza made which. If they
+		// all saw the same tables it does not matter (route listings are put
+		// back into stanza order); if not, this RA is not judged.
+		first, seen := "", false
+		for _, a := range b.addr {
+			if strings.HasPrefix(a, "!") {
+				continue
+			}
+			if !seen {
+				first, seen = a, true
+			} else if a != first {
+				in.ambiguous = true
+			}
+		}
+		byIdx := map[int][]string{}
+		var idxs []int
+		for i, r := range b.routes {
+			ix := 0
+			if i < len(b.routeIdx) {
+				ix = b.routeIdx[i]
+			}
+			if _, ok := byIdx[ix]; !ok {
+				idxs = append(idxs, ix)
+			}
+			byIdx[ix] = append(byIdx[ix], r)
+		}
+		sort.Ints(idxs)
+		if len(info.plan.LoopIdx) > 0 {
+			idxs = append([]int(nil), info.plan.LoopIdx...)
+		}
+		for _, l := range byIdx {
+			f, seen := "", false
+			for _, r := range l {
+				if strings.HasPrefix(r, "!") {
+					in.ambiguous = true // which stanza's listing failed?
+				} else if !seen {
+					f, seen = r, true
+				} else if r != f {
+					in.ambiguous = true
+				}
+			}
+		}
+		var rs []string
+		for k := 0; ; k++ {
+			any := false
+			for _, ix := range idxs {
+				if k < len(byIdx[ix]) {
+					rs = append(rs, byIdx[ix][k])
+					any = true
+				}
+			}
+			if !any {
+				break
+			}
+		}
+		in.routes = rs
 	}
 	// The terminating RA: multicast, after a terminating stop signal, lifetime 0.
 	_, stopSeq, sig := stopInstant(h, w.node)
@@ -59,6 +125,9 @@ func contentRule(info *runInfo, h *history, w *write) (string, *modelOut) {
 	in, why := modelFor(info, h, w)
 	if in == nil {
 		return why, nil
+	}
+	if in.ambiguous {
+		return "", nil
 	}
 	for i, from := range w.build.addrIf {
 		if g := h.byKey[genKey(w.node, w.ifn, w.gen)]; g != nil && g.index != 0 && w.build.addrIdx[i] != g.index {
